@@ -85,10 +85,6 @@ def eval_case(case):
                          observed=[x for x in (got or []) if repr(x) not in sa][:4] or (got or [])[:6],
                          where="save_musicxml", detail="part %s (onset_q, dur_q, pitch), ties merged" % p["id"])
                 break
-            if ext.get(p["id"]) != M.measure_extents_q(p):
-                res.fail("file-denotes-measure-extents", expected=M.measure_extents_q(p), observed=ext.get(p["id"]),
-                         where="save_musicxml", detail="part %s measure extents in quarters as read by the independent reader" % p["id"])
-                break
 
     # (1) load(save(s)) == s on the listed attributes
     res.transitions += 1
@@ -134,6 +130,33 @@ def spaces(tier, seed):
     else:
         sp.append(Space("A1-core-1measure-le3", lambda: G.gen_A(one, 3), True,
                         "one 2/4 measure, all sets of <=3 events: span x voice{1,2} x staff{1,2} x {note,rest}"))
+    B = 8
+    r = seed % B
+    q = tier == "quick"
+
+    def blk(gen):
+        return G.stride(gen, B, r) if q else gen
+
+    def bname(n):
+        return n + ("-block" if q else "")
+    btxt = ("block %d of %d (index stride) of: " % (r, B)) if q else ""
+    sp.append(Space("A2-core-2measures-le2", lambda: G.gen_A(two, 2, staff_is_voice=True, name="A2"), True,
+                    "pickup+full and full+irregular 2/4 layouts, all sets of <=2 events: span x voice{1,2} (staff=voice) x {note,rest}"))
+    sp.append(Space(bname("A2-core-2measures-3"), blk(lambda: G.gen_A(two, 3, staff_is_voice=True, nmin=3, name="A2")), True,
+                    btxt + "same layouts, all sets of 3 events"))
+    sp.append(Space("A3-unpitched", lambda: G.gen_A_kinds(("n", "u")), True,
+                    "one 2/4 measure, all sets of <=2 events: span x voice{1,2} x {note, unpitched}"))
+    sp.append(Space("A4-estimated-symbolic-duration", lambda: G.gen_A_kinds(("n", "r"), nosym=True, name="A-nosym"), True,
+                    "as A1 with <=2 events but no explicit symbolic duration (estimated by the library)"))
+    sp.append(Space("B1-ties", lambda: G.gen_B_ties(False), True,
+                    "three 1/4 measures; chains of 2-3 contiguous equal-pitch notes (durations 1-2 units, each inside a measure), "
+                    "voices {1,2}^k, every non-empty subset of tie links"))
+    sp.append(Space(bname("B1-ties-extra"), blk(lambda: G.gen_B_ties(True)), True,
+                    btxt + "B1 plus one more event anywhere (other pitch / same pitch untied / rest, voice 1-2)"))
+    sp.append(Space("B2-chord-ties", G.gen_B_chordties, True, "two simultaneous chains over a barline, equal and unequal chord members, second chain in voice 1 or 2"))
+    sp.append(Space("B3-grace", lambda: G.gen_B_grace(False), True,
+                    "cores of 1-2 notes (span x voice{1,2}), grace run of length 1-2, plain or slashed, before either note"))
+    sp.append(Space(bname("B3-grace-double"), blk(lambda: G.gen_B_grace(True)), True, btxt + "cores of 2 notes, a grace run before both"))
     return sp
 
 
